@@ -134,10 +134,7 @@ class Interp:
         a = list(args)
         body = fn.body
         if body.argc != len(a):
-            # closures called through Fn* traits: (env, (a, b, ..)) -> (env, a, b, ..)
-            if len(a) == 2 and isinstance(a[1], Agg) and a[1].kind == "tuple" and body.argc == 1 + len(a[1].fields):
-                a = [a[0]] + list(a[1].fields)
-            elif len(a) < body.argc:
+            if len(a) < body.argc:
                 a = a + [TOP] * (body.argc - len(a))
             else:
                 a = a[:body.argc]
@@ -149,10 +146,13 @@ class Interp:
             outs.append((p.ret, [Event("enter", -1, fn.key)] + p.events, p.end, p.mstate))
         return outs or [(TOP, [], "diverge", dict(self.mstate))]
 
-    def call_value(self, fv, args):
-        """call a function value (closure aggregate or fn item) on args"""
+    def call_value(self, fv, args, rust_call=False):
+        """call a function value (closure aggregate or fn item) on args; rust_call: args is the single
+        argument tuple of a call through the Fn* traits"""
         if self.facts is None:
             return None
+        if rust_call and len(args) == 1 and isinstance(args[0], Agg) and args[0].kind == "tuple":
+            args = list(args[0].fields)
         if isinstance(fv, Agg) and fv.kind == "closure":
             fn = self.facts.fn_opt(fv.name)
             if fn is None:
@@ -539,9 +539,12 @@ class Interp:
                         if outs is None and f.get("kind") == "def" and self.inline and self.inline(ckey):
                             cf = self.facts.fn_opt(ckey)
                             if cf is not None:
-                                outs = self.call_body(cf, fargs)
+                                ca = fargs
+                                if f.get("trait", "").startswith("core::ops::function") and len(fargs) == 2 and isinstance(fargs[1], Agg) and fargs[1].kind == "tuple":
+                                    ca = [fargs[0]] + list(fargs[1].fields)   # rust-call ABI: (env, (a, b, ..))
+                                outs = self.call_body(cf, ca)
                         if outs is None and f.get("kind") == "def" and f.get("name") in ("call_once", "call_mut", "call") and f.get("trait", "").startswith("core::ops::function") and args:
-                            outs = self.call_value(fargs[0], fargs[1:])
+                            outs = self.call_value(fargs[0], fargs[1:], rust_call=True)
                     if outs is not None:
                         path.events.append(Event("inlined", bb, (ckey, f.get("gargs"), args, None, t)))
                         for (ret, evs, end, ms) in outs:
